@@ -2,9 +2,14 @@
    extracted inductive types; no Extract Constant. *)
 From Coq Require Import ExtrOcamlBasic.
 From Coq Require Extraction.
-From I18n Require Import Lib.Outcome Model.IntExpr Model.PluralForms Model.Tags Generated.UcdPrintable.
+From I18n Require Import Lib.Outcome Model.IntExpr Model.PluralForms Model.Tags Generated.UcdPrintable
+  Model.Header Generated.HeaderFields Generated.SpecialDomains Generated.UcdHeader.
 Extraction Language OCaml.
 Extraction "model.ml"
   IntExpr.parse_string IntExpr.pyeval IntExpr.codomain IntExpr.period
   PluralForms.parse_plural_forms PluralForms.check_plurals_core
-  Tags.escape Tags.format_line Tags.priority Tags.in_ranges UcdPrintable.printable_ranges.
+  Tags.escape Tags.format_line Tags.priority Tags.in_ranges UcdPrintable.printable_ranges
+  Header.hdr_check Header.content_type_match Header.parse_header Header.is_special Header.comment_line_boilerplate
+  Header.unusual_chars Header.is_conflict_marker Header.splitlines Header.project_diags Header.sort_u
+  HeaderFields.header_fields HeaderFields.dedicated_fields SpecialDomains.special_exact_or_sub SpecialDomains.special_sub_only
+  UcdHeader.re_word_ranges UcdHeader.re_digit_ranges UcdHeader.re_space_ranges.
